@@ -51,6 +51,8 @@ func checkC04(c *Ctx, r *Report) {
 	consumedOffset(c, r, "C04.R4.consumed-offset")
 	r.rule("C04.R2.question-exits", 1, "unpackQuestion refuses only what the name and integer codecs refuse")
 	codecExitsOnly(c, r, "C04.R2.question-exits", "unpackQuestion", 3, "a question name that arrives compressed (the packer compresses the second and later questions) is refused")
+	pointersOnlyFromPacker(c, r, "C04.R3.pointer-writers")
+	ctorByTypeOnly(c, r, "C04.R2.ctor-by-type")
 }
 
 // c04R4b: the map accessors index with the key they are given (no normalisation inside find/insert).
